@@ -31,13 +31,15 @@ def build_od():
     def add(container, name, idx, sub, dt):
         v = ODVariable(name, idx, sub)
         v.data_type = dt
-        v.access_type = "rw"
+        # the three read/write access types of CiA 306 ("rwr" / "rww": read/write, mappable into a TPDO / RPDO)
+        acc = ("rw", "rwr", "rww")[(idx + sub) % 3]
+        v.access_type = acc
         if container is None:
             od.add_object(v)
         else:
             container.add_member(v)
         header.append({"idx": idx, "sub": sub, "num": dt in enc.NUM_SIZE and dt != enc.BOOLEAN,
-                       "size": enc.NUM_SIZE.get(dt, 0), "acc": "rw", "def": [-1], "val": [-1],
+                       "size": enc.NUM_SIZE.get(dt, 0), "acc": acc, "def": [-1], "val": [-1],
                        "rcb": [-1]})
     for dt in TYPES:
         add(None, f"Var{dt:02X}", var_idx(dt), 0, dt)
